@@ -1734,7 +1734,7 @@ class IRGenerator:
                 route_data_types.append(data_type)
 
         # Recurse on dependencies
-        output_types_by_ns, output_routes_by_ns = self._find_dependencies(route_data_types)
+        output_types_by_ns, output_routes_by_ns, seen = self._find_dependencies(route_data_types)
         for ns_name, doc_routes in doc_routes_by_ns.items():
             output_routes_by_ns[ns_name] |= doc_routes
 
@@ -1744,6 +1744,10 @@ class IRGenerator:
             data_types = list(set(output_types_by_ns[namespace.name]))  # defaults to empty list
             namespace.data_types = data_types
             namespace.data_type_by_name = {d.name: d for d in data_types}
+
+            # An alias that nothing retained refers to may name a removed type.
+            namespace.aliases = [alias for alias in namespace.aliases if alias in seen]
+            namespace.alias_by_name = {alias.name: alias for alias in namespace.aliases}
 
             output_route_reprs = [output_route.name_with_version()
                                   for output_route in output_routes_by_ns[namespace.name]]
@@ -1772,7 +1776,7 @@ class IRGenerator:
         seen = set()
         for t in data_types:
             self._find_dependencies_recursive(t, seen, output_types, output_routes)
-        return output_types, output_routes
+        return output_types, output_routes, seen
 
     def _find_dependencies_recursive(self, data_type, seen, output_types,
                                      output_routes, type_context=None):
